@@ -479,4 +479,5 @@ func runC03(r *an.Run) {
 	commitStoreTransactions(r)
 	windowDiscipline(r)
 	modifiedMarkerDiscipline(r)
+	persistRestoreKindAgreement(r)
 }
